@@ -37,6 +37,17 @@ theorem takeWhile_all {α} (p : α → Bool) : ∀ (l : List α), ∀ b ∈ l.ta
       · exact takeWhile_all p l b hb
     · simp at hb
 
+theorem dropWhile_head_false {α} (p : α → Bool) : ∀ (l : List α) (b : α) (rest : List α),
+    l.dropWhile p = b :: rest → p b = false
+  | [], _, _, h => by simp at h
+  | a :: l, b, rest, h => by
+    rw [List.dropWhile_cons] at h
+    split at h
+    · exact dropWhile_head_false p l b rest h
+    · next ha =>
+      simp only [List.cons.injEq] at h
+      rw [← h.1]; simpa using ha
+
 /-! ### merge sort = stable insertion -/
 
 /-- stable insertion of `a`: after every element that is strictly smaller -/
@@ -169,5 +180,120 @@ theorem foldr_ins_chain (t : Str) (T : List (Str × List Rec)) (hne : ∀ q ∈ 
         simp [strLe_refl])
     rw [s1, s2, pairsOf_append, pairsOf_cons, pairsOf_cons]
     simp
+
+end BioCantor.Proofs.Gb
+
+namespace BioCantor.Proofs.Gb
+open BioCantor BioCantor.Spec.Qual BioCantor.Spec.Gb BioCantor.Model.Gb
+
+/-! ### the sorted chains -/
+
+theorem insChain_perm (p : Str × List Rec) (T : List (Str × List Rec)) : (insChain p T).Perm (p :: T) := by
+  unfold insChain
+  have h := List.takeWhile_append_dropWhile (p := fun q : Str × List Rec => !strLe p.1 q.1) (l := T)
+  have h1 : (T.takeWhile (fun q => !strLe p.1 q.1) ++ p :: T.dropWhile (fun q => !strLe p.1 q.1)).Perm
+      (p :: (T.takeWhile (fun q => !strLe p.1 q.1) ++ T.dropWhile (fun q => !strLe p.1 q.1))) := List.perm_middle
+  rw [h] at h1
+  exact h1
+
+theorem sortChains_perm : ∀ (tch : List (Str × List Rec)), (sortChains tch).Perm tch
+  | [] => List.Perm.refl _
+  | p :: tch => by
+    show (insChain p (sortChains tch)).Perm (p :: tch)
+    exact (insChain_perm p _).trans ((sortChains_perm tch).cons p)
+
+theorem mem_sortChains (tch : List (Str × List Rec)) (q : Str × List Rec) : q ∈ sortChains tch ↔ q ∈ tch :=
+  (sortChains_perm tch).mem_iff
+
+theorem sortPairs_append_foldr : ∀ (l₁ L : List TRec),
+    sortPairsByTag (l₁ ++ L) = l₁.foldr (insStable tagLeP) (sortPairsByTag L)
+  | [], _ => rfl
+  | a :: l₁, L => by
+    rw [List.cons_append, sortPairs_cons, sortPairs_append_foldr l₁ L]
+    rfl
+
+/-- **the tag sort keeps every chain contiguous**: sorting the pairs = listing the chains in `sortChains` order -/
+theorem sortPairs_general : ∀ (tch : List (Str × List Rec)), (∀ p ∈ tch, p.2 ≠ []) →
+    sortPairsByTag (pairsOf tch) = pairsOf (sortChains tch)
+  | [], _ => by simp [pairsOf, sortPairsByTag, sortChains]
+  | p :: tch, hne => by
+    have ih := sortPairs_general tch (fun q hq => hne q (List.mem_cons_of_mem _ hq))
+    rw [pairsOf_cons, sortPairs_append_foldr, ih]
+    exact foldr_ins_chain p.1 (sortChains tch)
+      (fun q hq => hne q (List.mem_cons_of_mem _ ((mem_sortChains tch q).mp hq))) p.2 (hne p List.mem_cons_self)
+
+/-- strict tag order of the sorted chains, from pairwise different tags -/
+theorem insChain_sorted (p : Str × List Rec) (T : List (Str × List Rec))
+    (hT : T.Pairwise (fun a b => strLt a.1 b.1 = true)) (hnew : ∀ q ∈ T, q.1 ≠ p.1) :
+    (insChain p T).Pairwise (fun a b => strLt a.1 b.1 = true) := by
+  unfold insChain
+  have hsplit := List.takeWhile_append_dropWhile (p := fun q : Str × List Rec => !strLe p.1 q.1) (l := T)
+  have hTT := hT
+  rw [← hsplit] at hTT
+  obtain ⟨hA, hB, hAB⟩ := List.pairwise_append.mp hTT
+  have hAlt : ∀ a ∈ T.takeWhile (fun q => !strLe p.1 q.1), strLt a.1 p.1 = true := by
+    intro a ha
+    have hp := takeWhile_all _ T a ha
+    have hle : strLe p.1 a.1 = false := by simpa using hp
+    have htot := Proofs.Qual.strLe_total a.1 p.1
+    rw [hle, Bool.or_false] at htot
+    rcases Proofs.Qual.strLe_iff.mp htot with h | h
+    · rw [h, strLe_refl] at hle; exact absurd hle (by simp)
+    · exact h
+  have hBgt : ∀ b ∈ T.dropWhile (fun q => !strLe p.1 q.1), strLt p.1 b.1 = true := by
+    intro b hb
+    cases hd : T.dropWhile (fun q => !strLe p.1 q.1) with
+    | nil => rw [hd] at hb; simp at hb
+    | cons h0 rest =>
+      have hh0 : strLt p.1 h0.1 = true := by
+        have hf : (fun q : Str × List Rec => !strLe p.1 q.1) h0 = false :=
+          dropWhile_head_false _ T h0 rest hd
+        have hle : strLe p.1 h0.1 = true := by simpa using hf
+        rcases Proofs.Qual.strLe_iff.mp hle with h | h
+        · exact absurd h.symm (hnew h0 ((List.dropWhile_sublist _).subset (by rw [hd]; exact List.mem_cons_self)))
+        · exact h
+      rw [hd] at hb hB
+      rcases List.mem_cons.mp hb with rfl | hb'
+      · exact hh0
+      · exact Proofs.Qual.strLt_trans hh0 ((List.pairwise_cons.mp hB).1 b hb')
+  rw [List.pairwise_append]
+  refine ⟨hA, List.Pairwise.cons hBgt hB, ?_⟩
+  intro a ha b hb
+  rcases List.mem_cons.mp hb with rfl | hb
+  · exact hAlt a ha
+  · exact hAB a ha b hb
+
+theorem sortChains_sorted : ∀ (tch : List (Str × List Rec)), (tch.map (·.1)).Pairwise (fun a b => a ≠ b) →
+    (sortChains tch).Pairwise (fun a b => strLt a.1 b.1 = true)
+  | [], _ => List.Pairwise.nil
+  | p :: tch, h => by
+    rw [List.map_cons] at h
+    obtain ⟨h1, h2⟩ := List.pairwise_cons.mp h
+    apply insChain_sorted p (sortChains tch) (sortChains_sorted tch h2)
+    intro q hq
+    exact (h1 q.1 (List.mem_map.mpr ⟨q, (mem_sortChains tch q).mp hq, rfl⟩)).symm
+
+/-- hypotheses of T3 on tagged chains, WITHOUT any order of the tags in the file: the tags are pairwise different -/
+structure TaggedChainsAny (tch : List (Str × List Rec)) : Prop where
+  chains : ∀ p ∈ tch, IsChain p.2
+  tags : ∀ p ∈ tch, ∀ r ∈ p.2, Model.Gb.tagOf r = .ok p.1
+  distinct : (tch.map (·.1)).Pairwise (fun a b => a ≠ b)
+
+theorem sortChains_tagged (tch : List (Str × List Rec)) (h : TaggedChainsAny tch) : TaggedChains (sortChains tch) where
+  chains := fun p hp => h.chains p ((mem_sortChains tch p).mp hp)
+  tags := fun p hp => h.tags p ((mem_sortChains tch p).mp hp)
+  ascending := by
+    rw [List.pairwise_map]
+    exact sortChains_sorted tch h.distinct
+
+/-- **locus-tag grouping, any tag order**: one group per chain, in tag order -/
+theorem groupByLocusTag_general (tch : List (Str × List Rec)) (h : TaggedChainsAny tch) :
+    groupByLocusTagRecs (recsOf tch) = .ok (chainGroups (sortChains tch)) := by
+  have hs := sortChains_tagged tch h
+  unfold groupByLocusTagRecs groupTagOrdered
+  rw [show recsOf tch = (tch.map (·.2)).flatten from rfl, tagPairs_chains tch h.tags]
+  simp only [bind, Except.bind, sortPairs_general tch (fun p hp => (h.chains p hp).ne)]
+  rw [groupRuns_chains _ (fun p hp => (hs.chains p hp).ne) hs.ascending]
+  exact processRuns_chains _ hs.chains
 
 end BioCantor.Proofs.Gb
